@@ -480,7 +480,7 @@ def main(out_path):
     L.append('')
     _, _, body = find_fn(utxo, 'too_many_checks_pending')
     b = norm(body)
-    m = rx(r'^\{ let mut pending_checks = self\.internal\.lock\(\)\.unwrap\(\); if (pending_checks\.channels\.len\(\) > Self::MAX_PENDING_LOOKUPS) \{ pending_checks\.channels\.retain\(.*?\); pending_checks\.nodes\.retain\(.*?\); (pending_checks\.channels\.len\(\) > Self::MAX_PENDING_LOOKUPS) \} else \{ false \} \}$', b, 'too_many_checks_pending')
+    m = rx(r'^\{ let mut pending_checks = self\.internal\.lock\(\)\.unwrap\(\); if (pending_checks\.channels\.len\(\) [<>=!]+ Self::MAX_PENDING_LOOKUPS) \{ pending_checks\.channels\.retain\(.*?\); pending_checks\.nodes\.retain\(.*?\); (pending_checks\.channels\.len\(\) [<>=!]+ Self::MAX_PENDING_LOOKUPS) \} else \{ false \} \}$', b, 'too_many_checks_pending')
     need(m.group(1) == m.group(2), "too_many_checks_pending: the two tests differ")
     emit('tooManyChecks', '(channels_len : Nat)', 'Bool', m.group(1).replace('pending_checks.channels.len()', 'channels_len'), Em(env={'channels_len': 'channels_len'}),
          'too_many_checks_pending (argument = number of SCIDs with a live pending lookup)')
